@@ -132,8 +132,20 @@ struct C08Ctx<'a> {
 
 /// judge one finished search against the reference value
 fn c08_judge(ctx: &C08Ctx, p: &Pos, depth: usize, out: &SearchOut, how: &str, use_plain: bool) {
+    c08_judge_at(ctx, p, depth, out, how, use_plain, &[])
+}
+
+/// `prefix`: the UCI lines the engine received before the judged search (empty = fresh engine,
+/// depths 1..d in sequence); recorded so that the replay drives the same session
+fn c08_judge_at(ctx: &C08Ctx, p: &Pos, depth: usize, out: &SearchOut, how: &str, use_plain: bool, prefix: &[String]) {
     let fen = p.to_fen();
-    let case = |extra: Value| json!({"kind": "search", "fen": fen, "depth": depth, "how": how, "detail": extra});
+    let case = |extra: Value| {
+        if prefix.is_empty() {
+            json!({"kind": "search", "fen": fen, "depth": depth, "how": how, "detail": extra})
+        } else {
+            json!({"kind": "session", "fen": fen, "depth": depth, "how": how, "prefix": prefix, "detail": extra})
+        }
+    };
     ctx.searches.fetch_add(1, Ordering::Relaxed);
     if let Some(pr) = &out.problem {
         ctx.rep.report(format!("no_answer:{}", short(pr)), case(json!({"problem": pr})));
@@ -272,13 +284,67 @@ pub fn run_c08(tier: Tier) -> i32 {
     par_map_fine(&pairs, |&(a, b)| {
         let mut sess = Session::new(false);
         let _ = search_depth(&mut sess, &pool[a], &[], 3, "");
+        let mut prefix = vec![position_line(&pool[a], &[]), "go depth 3".to_string()];
         for d in [2usize, 3] {
             let out = search_depth(&mut sess, &pool[b], &[], d, "");
-            c08_judge(&ctx, &pool[b], d, &out, &format!("second search on an engine that searched {} before", pool[a].to_fen()), false);
+            prefix.push(position_line(&pool[b], &[]));
+            c08_judge_at(&ctx, &pool[b], d, &out, &format!("second search on an engine that searched {} before", pool[a].to_fen()), false, &prefix);
+            prefix.push(format!("go depth {}", d));
         }
         sess.quit();
     });
     fams.push(json!({"family": "ordered pairs (prev, cur) on one engine", "pool": pool.len(), "pairs": pairs.len(), "secs": t0.elapsed().as_secs_f64()}));
+    // (2b) the game goes on along the engine's own line: position P / go depth d1, then
+    // `position P moves <first one or two moves of the announced line>` and, as the first search after
+    // that, depth 1..3 — "irrespective of what was searched before on the same engine instance"
+    // includes the searches a game is made of, where the new root is a node of the previous tree.
+    let t0 = Instant::now();
+    let cont_pool: Vec<Pos> = positions.iter().step_by(if tier == Tier::Quick { (positions.len() / 120).max(1) } else { (positions.len() / 600).max(1) }).cloned().collect();
+    let d1s: &[usize] = &[3, 4, 5];
+    let jobs: Vec<(usize, usize, usize)> = (0..cont_pool.len()).flat_map(|i| d1s.iter().flat_map(move |&d1| [1usize, 2].into_iter().map(move |c| (i, d1, c)))).collect();
+    let cont_n = AtomicU64::new(0);
+    par_map_fine(&jobs, |&(i, d1, c)| {
+        let p = &cont_pool[i];
+        if p.piece_count() > 16 && d1 > 4 {
+            return;
+        }
+        let first = {
+            let mut s = Session::new(false);
+            let o = search_depth(&mut s, p, &[], d1, "");
+            s.quit();
+            o
+        };
+        if first.problem.is_some() || first.pv.len() < c {
+            return;
+        }
+        let moves: Vec<String> = first.pv[..c].to_vec();
+        let mut q = p.clone();
+        for u in &moves {
+            match q.find_legal_uci(u) {
+                Some(m) => q = q.make(&m),
+                None => {
+                    rep.report("pv_illegal".to_string(), json!({"kind": "search", "fen": p.to_fen(), "depth": d1, "detail": {"pv": first.pv}}));
+                    return;
+                }
+            }
+        }
+        if !q.has_legal_move() {
+            return;
+        }
+        for d in 1..=3usize {
+            if d == 3 && q.piece_count() > 16 && tier == Tier::Quick {
+                continue;
+            }
+            let mut s = Session::new(false);
+            let _ = search_depth(&mut s, p, &[], d1, "");
+            let out = search_depth(&mut s, p, &moves, d, "");
+            s.quit();
+            cont_n.fetch_add(1, Ordering::Relaxed);
+            let prefix = vec![position_line(p, &[]), format!("go depth {}", d1), position_line(p, &moves)];
+            c08_judge_at(&ctx, &q, d, &out, &format!("first search after the game followed {} plies of the line announced at depth {}", c, d1), false, &prefix);
+        }
+    });
+    fams.push(json!({"family": "first search after the game followed the engine's own line (1 or 2 plies), depths 1..3", "roots": cont_pool.len(), "searches": cont_n.load(Ordering::Relaxed), "secs": t0.elapsed().as_secs_f64()}));
     // (3) Bellman consistency between the engine's own searches
     let t0 = Instant::now();
     let bell: Vec<Pos> = positions.iter().step_by(if tier == Tier::Quick { 60 } else { 10 }).cloned().collect();
@@ -1007,6 +1073,24 @@ pub fn replay(id: &str, case: &Value) -> i32 {
                     rep.report("value_depends_on_the_search_window".to_string(), json!({"kind": "window", "fen": p.to_fen(), "depth": depth}));
                 }
             }
+        }
+        ("C08", "session") => {
+            let ctx = C08Ctx { rep: &rep, searches: Default::default(), ref_nodes: Default::default(), mates_checked: Default::default(), positive_mate_reports: Default::default() };
+            let prefix: Vec<String> = case["prefix"].as_array().map(|a| a.iter().filter_map(|v| v.as_str().map(|s| s.to_string())).collect()).unwrap_or_default();
+            let mut sess = Session::new(false);
+            for l in &prefix {
+                println!("> {}", l);
+                if l.starts_with("go") {
+                    let o = run_go(&mut sess, l, Plan::virtual_rate(1000), &no_actions);
+                    println!("  score {:?} best {:?} pv {:?}", o.score, o.best, o.pv);
+                } else {
+                    sess.line(l);
+                }
+            }
+            let out = run_go(&mut sess, &format!("go depth {}", depth), Plan::virtual_rate(1000), &no_actions);
+            println!("> go depth {}\n  score {:?} best {:?} pv {:?}", depth, out.score, out.best, out.pv);
+            sess.quit();
+            c08_judge_at(&ctx, &p, depth, &out, "replay of the recorded session", p.piece_count() <= 12 || depth <= 2, &prefix);
         }
         ("C08", "search") | ("C08", "mate") | ("C08", "bellman") => {
             let ctx = C08Ctx { rep: &rep, searches: Default::default(), ref_nodes: Default::default(), mates_checked: Default::default(), positive_mate_reports: Default::default() };
